@@ -18,12 +18,14 @@ Definition add_var (x : string) (acc : list string) : list string :=
 
 Fixpoint vars_expr (e : expr) (acc : list string) {struct e} : list string :=
   match e with
-  | ELit _ | EPanic => acc
+  | ELit _ | EPanic | EClosure _ => acc
   | EVar x | EPostInc x => add_var x acc
   | EBin _ a b | EAnd a b | EOr a b | ESame a b => vars_expr b (vars_expr a acc)
   | ENot a | EMsg a | EClass a | ENew _ a => vars_expr a acc
   | EAssign x e => add_var x (vars_expr e acc)
   | EArr a | ECall _ a => vars_args a acc
+  | EIdx x i | EIdxInc _ x i => add_var x (vars_expr i acc)
+  | ECallV f a => vars_args a (vars_expr f acc)
   | EMatch s m => vars_arms m (vars_expr s acc)
   end
 with vars_args (a : args) (acc : list string) {struct a} : list string :=
@@ -43,7 +45,7 @@ Fixpoint vars_stmt (s : stmt) (acc : list string) {struct s} : list string :=
   | SSkip | SBreak _ | SContinue _ | SReturn None => acc
   | SSeq a b => vars_stmt b (vars_stmt a acc)
   | SExpr e | SEcho e | SReturn (Some e) | SThrow e => vars_expr e acc
-  | SPush x e => add_var x (vars_expr e acc)
+  | SPush x e | SSetIdx x _ e => add_var x (vars_expr e acc)
   | SIf c t ei e => vars_stmt e (vars_elifs ei (vars_stmt t (vars_expr c acc)))
   | SWhile c b => vars_stmt b (vars_expr c acc)
   | SDoWhile b c => vars_expr c (vars_stmt b acc)
@@ -67,6 +69,11 @@ with vars_catches (l : catches) (acc : list string) {struct l} : list string :=
 (* the symbol table of a function: parameters first, then first occurrence in the body *)
 Definition fun_vars (d : fundef) : list string :=
   vars_stmt (fbody d) (fold_left (fun acc p => add_var (fst p) acc) (fparams d) []).
+
+(* the symbol table of a closure: parameters, captured variables, then the body *)
+Definition clo_vars (c : clodef) : list string :=
+  vars_stmt (cbody c) (fold_left (fun acc x => add_var x acc) (cuses c)
+                         (fold_left (fun acc p => add_var (fst p) acc) (cparams c) [])).
 
 (* every variable the statement mentions is in the table *)
 Definition covers (vs : list string) (s : stmt) : bool :=
